@@ -260,11 +260,17 @@ class C17(Prop):
         for vc in G.VALID_VC:
             for afp in G.VALID_AFP:
                 for length in lengths:
-                    if length < G.FAM_SIZE[afp >> 4]:
-                        continue
+                    # declared lengths below the family's block included: with bytes missing the
+                    # verdict must already be the terminal one (completing it cannot succeed)
                     for have in sorted(set([0, 1, length // 2, max(length - 1, 0)])):
                         if have < length:
                             ops.append("v2 " + G.spec(G.header(vc, afp, length, G.rand_bytes(rng, have))))
+                size = G.FAM_SIZE[afp >> 4]
+                for length in sorted(set([1, 2, 5, size // 2, size - 1])):
+                    if 0 < length < size:
+                        for have in range(0, min(length, 6)):
+                            ops.append("v2 " + G.spec(G.header(vc, afp, length, G.rand_bytes(rng, have))))
+                        ops.append("v2 " + G.spec(G.header(vc, afp, length, G.rand_bytes(rng, length - 1))))
         return ops
 
     def project(self, op, line):
